@@ -15,6 +15,11 @@
 #include <xercesc/sax/SAXParseException.hpp>
 #include <xercesc/util/XMLUni.hpp>
 #include <xercesc/validators/common/Grammar.hpp>
+#include <xercesc/validators/schema/identity/XercesXPath.hpp>
+#include <xercesc/validators/schema/identity/XPathException.hpp>
+#include <xercesc/validators/schema/NamespaceScope.hpp>
+#include <xercesc/util/StringPool.hpp>
+#include <xercesc/util/QName.hpp>
 #include <map>
 #include <fstream>
 #include <cstdlib>
@@ -178,6 +183,84 @@ static std::string doIC(const std::vector<std::string>& a) {
     return res;
 }
 
+// ---- xp <s|f> <hex4 units | ->: XercesXPath (scanner + parseExpression [+ checkForSelectedAttributes]) on one expression.
+// answer: "p <path> | <path> ..." with steps S (self) D (descendant) C:<nametest> A:<nametest>, nametest = * | <prefix>:* |
+// [<prefix>:]<local> (names as hex4 units), or "e <XMLExcepts name>".  Prefixes t, o, p, q, r are bound, all others not.
+static const unsigned int kEmptyNs = 77;
+class FixedResolver : public XercesNamespaceResolver {
+public:
+    unsigned int getNamespaceForPrefix(const XMLCh* const prefix) const override {
+        if (!prefix || !prefix[0] || prefix[1]) return kEmptyNs;
+        switch (prefix[0]) { case 't': return 1; case 'o': return 2; case 'p': case 'q': return 3; case 'r': return 4; default: return kEmptyNs; }
+    }
+};
+static const char* xpErrName(int c) {
+    switch (c) {
+    case XMLExcepts::XPath_NoAttrSelector: return "NoAttrSelector"; case XMLExcepts::XPath_NoUnionAtStart: return "NoUnionAtStart";
+    case XMLExcepts::XPath_NoMultipleUnion: return "NoMultipleUnion"; case XMLExcepts::XPath_MissingAttr: return "MissingAttr";
+    case XMLExcepts::XPath_ExpectedToken1: return "ExpectedToken1"; case XMLExcepts::XPath_PrefixNoURI: return "PrefixNoURI";
+    case XMLExcepts::XPath_NoDoubleColon: return "NoDoubleColon"; case XMLExcepts::XPath_ExpectedStep1: return "ExpectedStep1";
+    case XMLExcepts::XPath_ExpectedStep2: return "ExpectedStep2"; case XMLExcepts::XPath_ExpectedStep3: return "ExpectedStep3";
+    case XMLExcepts::XPath_NoForwardSlash: return "NoForwardSlash"; case XMLExcepts::XPath_NoDoubleForwardSlash: return "NoDoubleForwardSlash";
+    case XMLExcepts::XPath_NoForwardSlashAtStart: return "NoForwardSlashAtStart"; case XMLExcepts::XPath_NoSelectionOfRoot: return "NoSelectionOfRoot";
+    case XMLExcepts::XPath_EmptyExpr: return "EmptyExpr"; case XMLExcepts::XPath_NoUnionAtEnd: return "NoUnionAtEnd";
+    case XMLExcepts::XPath_InvalidChar: return "InvalidChar"; case XMLExcepts::XPath_TokenNotSupported: return "TokenNotSupported";
+    default: return 0;
+    }
+}
+static std::string hex4(const XMLCh* s) {
+    static const char* d = "0123456789ABCDEF";
+    std::string o;
+    for (; s && *s; s++) { o += d[(*s >> 12) & 15]; o += d[(*s >> 8) & 15]; o += d[(*s >> 4) & 15]; o += d[*s & 15]; }
+    return o;
+}
+static std::string nodeTest(XercesNodeTest* nt) {
+    switch (nt->getType()) {
+    case XercesNodeTest::NodeType_WILDCARD: return "*";
+    case XercesNodeTest::NodeType_NAMESPACE: return hex4(nt->getName()->getPrefix()) + ":*";
+    case XercesNodeTest::NodeType_QNAME: {
+        const XMLCh* p = nt->getName()->getPrefix();
+        return (p && *p ? hex4(p) + ":" : std::string()) + hex4(nt->getName()->getLocalPart());
+    }
+    default: return "?";
+    }
+}
+static std::string doXP(const std::vector<std::string>& a) {
+    std::vector<XMLCh> expr;
+    if (a[2] != "-") for (size_t i = 0; i + 3 < a[2].size(); i += 4)
+        expr.push_back((XMLCh)((hexval(a[2][i]) << 12) | (hexval(a[2][i + 1]) << 8) | (hexval(a[2][i + 2]) << 4) | hexval(a[2][i + 3])));
+    expr.push_back(0);
+    try {
+        XMLStringPool pool(109);
+        FixedResolver res;
+        XercesXPath xp(expr.data(), &pool, &res, kEmptyNs, a[1] == "s");
+        RefVectorOf<XercesLocationPath>* lps = xp.getLocationPaths();
+        std::string out = "p";
+        for (XMLSize_t i = 0; lps && i < lps->size(); i++) {
+            if (i) out += " |";
+            XercesLocationPath* lp = lps->elementAt(i);
+            for (XMLSize_t j = 0; j < lp->getStepSize(); j++) {
+                XercesStep* st = lp->getStep(j);
+                switch (st->getAxisType()) {
+                case XercesStep::AxisType_SELF: out += " S"; break;
+                case XercesStep::AxisType_DESCENDANT: out += " D"; break;
+                case XercesStep::AxisType_CHILD: out += " C:" + nodeTest(st->getNodeTest()); break;
+                case XercesStep::AxisType_ATTRIBUTE: out += " A:" + nodeTest(st->getNodeTest()); break;
+                default: out += " ?";
+                }
+            }
+        }
+        return out;
+    } catch (const OutOfMemoryException&) {
+        return "exc OutOfMemory";
+    } catch (const XMLException& e) {
+        const char* n = xpErrName((int)e.getCode());
+        return n ? std::string("e ") + n : "exc " + exceptString(e);
+    } catch (...) {
+        return "exc unknown";
+    }
+}
+
 int main() {
     XMLPlatformUtils::Initialize();
     std::string line;
@@ -185,6 +268,7 @@ int main() {
         std::vector<std::string> a = splitWs(line);
         std::string r = "bad-request";
         if (a.size() >= 6 && a[0] == "ic") r = doIC(a);
+        else if (a.size() == 3 && a[0] == "xp") r = doXP(a);
         std::cout << r << "\n";
     }
     std::cout.flush();
